@@ -23,8 +23,12 @@ AcceptsExactly(a, u, s, e) == LET r == Run(a, SubSeq(u, 1, e), s, AStart[a], Dep
 GreedyEndA(a, u, s) == Attempt(a, u, s)[1]
 HeaderAt(c, s) == Succeeds(A1(c), c.w, s) /\ FollowedOK(A2(c), c.w, GreedyEndA(A1(c), c.w, s))
 CoveredBy(hs, s) == \E k \in 1..Len(hs) : hs[k][1] <= s /\ s < hs[k][2]
-CutByCandidate(c, s) == \E cs \in 0..(s - 1) : \E ce \in (s + 1)..(GreedyEndA(A1(c), c.w, s) - 1) :
-                           AcceptsExactly(A1(c), c.w, cs, ce) /\ ~FollowedOK(A2(c), c.w, ce)
+(* the search cannot see past the end of a candidate without a body that it descends into; such a candidate is, at *)
+(* the outermost level where the cut happens, a GREEDY match of the whole sequence (inner ranges end where an      *)
+(* enclosing candidate ends, so the same end is also the greedy end of that enclosing candidate)                 *)
+CutByCandidate(c, s) == \E cs \in 0..(s - 1) : LET ce == GreedyEndA(A1(c), c.w, cs) IN
+                           /\ Succeeds(A1(c), c.w, cs) /\ s < ce /\ ce < GreedyEndA(A1(c), c.w, s)
+                           /\ ~FollowedOK(A2(c), c.w, ce)
 Clause(c) ==
   CASE c.exc # "" -> "NormalReturn"
     [] \E k \in 1..Len(c.hs) : ~(0 <= c.hs[k][1] /\ c.hs[k][1] < c.hs[k][2] /\ c.hs[k][2] <= Len(c.w)) -> "HInBounds"
